@@ -66,7 +66,7 @@ bool read_pcap(std::string const& path, std::vector<Rec>& out, std::string& err)
 	return true;
 }
 
-struct UdpS { std::unique_ptr<ip::udp::socket> s; ip::udp::endpoint ep; std::vector<std::uint8_t> rb; ip::udp::endpoint from; int got = 0; };
+struct UdpS { std::unique_ptr<ip::udp::socket> s; ip::udp::endpoint ep; std::vector<std::uint8_t> rb; ip::udp::endpoint from; int got = 0; std::size_t split = 0; };
 
 struct Conn
 {
@@ -105,7 +105,7 @@ struct Prog
 	std::uint64_t keyseq = 1;
 	bool idle_hook = true;
 	std::int64_t t_base = 0; // virtual time at which the program's traffic starts
-	bool giveup_program = false;
+	bool giveup_program = false, small_sndbuf = false;
 	bool late_capture = false, capture_on = false; std::size_t capture_from_event = 0; // probe events before this index precede the capture
 
 	Prog(Args const& a_, std::uint64_t seed, std::string path) : a(a_), rng(seed), pcap_path(std::move(path)) {}
@@ -283,7 +283,10 @@ struct Prog
 			API(u.s->open(ip::udp::v4(), ec)); API(u.s->non_blocking(true, ec));
 			u.ep = ip::udp::endpoint(addrs[std::size_t(node)], std::uint16_t(6100 + i));
 			API(u.s->bind(u.ep, ec));
+			// small send buffers: bursts then run into would_block, and a refused datagram is not on the wire
+			if (rng.coin(1, 3)) { API(u.s->set_option(ip::udp::socket::send_buffer_size(int(rng.pick(std::vector<int>{1000, 3000, 10000}))), ec)); small_sndbuf = true; }
 			u.rb.assign(66000, 0);
+			if (rng.coin()) u.split = std::size_t(rng.pick(std::vector<int>{8, 64, 500, 1400}));
 			udp_recv(u, i);
 		}
 		if (nu >= 1)
@@ -293,13 +296,15 @@ struct Prog
 			{
 				int const from = rng.choose(nu), to = rng.choose(nu);
 				int const len = rng.coin(1, 6) ? int(rng.range(60000, 65507)) : int(rng.range(1, 3000));
-				std::int64_t const t = rng.range(0, 60000000);
+				// with small send buffers half of the datagrams go out in bursts at a few common instants
+				std::int64_t const t = (small_sndbuf && rng.coin()) ? std::int64_t(rng.choose(3)) * 20000000 : rng.range(0, 60000000);
 				std::uint64_t const key = mix64(hcomb(a.seed, 0xDD00 + std::uint64_t(k)));
 				after(t, [this, from, to, len, key, k]() {
 					std::vector<std::uint8_t> b; b.resize(std::size_t(len)); fill_stream(b.data(), b.size(), key, 0);
 					error_code ec; std::size_t n = 0;
 					API(n = udps[std::size_t(from)]->s->send_to(asio::buffer(b), udps[std::size_t(to)]->ep, 0, ec));
 					tr(fmt("udp send %d len=%d ret=%zu ec=%d", k, len, n, ec.value()));
+					if (ec == boost::asio::error::would_block) R().count("udp_sends_refused_with_would_block");
 				});
 			}
 			desc += fmt(" | %d udp sockets, %d datagrams", nu, nd);
@@ -355,7 +360,12 @@ struct Prog
 	{
 		UdpS* up = &u;
 		OpPtr op = ops.make("udp.receive_from", 800 + idx);
-		API(u.s->async_receive_from(asio::buffer(u.rb), u.from, track2(op, [this, up, idx](error_code const& ec, std::size_t n) {
+		// half of the sockets receive into a scatter list: a short first buffer, the rest behind it (adjacent in memory,
+		// so the received bytes are still rb[0..n))
+		std::vector<asio::mutable_buffer> bufs;
+		if (u.split > 0) { bufs.push_back(asio::mutable_buffer(u.rb.data(), u.split)); bufs.push_back(asio::mutable_buffer(u.rb.data() + u.split, u.rb.size() - u.split)); }
+		else bufs.push_back(asio::mutable_buffer(u.rb.data(), u.rb.size()));
+		API(u.s->async_receive_from(bufs, u.from, track2(op, [this, up, idx](error_code const& ec, std::size_t n) {
 			tr(fmt("udp recv sock%d ec=%d n=%zu from=%s:%u hash=%016" PRIx64, idx, ec.value(), n, up->from.address().to_string().c_str(), unsigned(up->from.port()), ec ? 0 : fnv(up->rb.data(), n)));
 			if (ec) return;
 			++up->got; udp_recv(*up, idx);
